@@ -110,7 +110,7 @@ impl PartialEq for TypeHint {
 impl TypeHint {
     /// The source code equivalent of this type hint.
     pub(crate) fn as_src(&self) -> String {
-        if self.args.is_empty() {
+        if self.args.is_empty() && self.sym.name.text != "Tuple" {
             format!("{}", self.sym.name)
         } else if self.sym.name.text == "Tuple" {
             let formatted_args = self
